@@ -1553,4 +1553,241 @@ theorem canon_fixed (first : Text) (bs : List Text) (bl : Text) (m : Nat) (doc b
   rw [hfirst, hnorm, hbody, h.indent]
   rfl
 
+
+/-! ### `Comment.from_cst` produces canonical multi-line block comments -/
+
+theorem splitLines_length : ∀ (s : Text), (splitLines s).length = s.count '\n' + 1
+  | [] => rfl
+  | c :: cs => by
+    have ih := splitLines_length cs
+    by_cases hc : c = '\n'
+    · subst hc; rw [splitLines_cons_nl, List.length_cons, ih, List.count_cons_self]
+    · rw [splitLines_cons_ne hc, List.count_cons_of_ne hc, List.length_cons, List.length_tail, ih]; omega
+
+theorem isBlankLine_iff (l : Text) : isBlankLine l = true ↔ ∀ c ∈ l, isPyWhitespace c = true := by
+  unfold isBlankLine
+  rw [strip_eq_stripBy, List.isEmpty_iff]
+  constructor
+  · intro h
+    unfold stripBy at h
+    have h1 := rstripBy_append_tail isPyWhitespace (l.dropWhile isPyWhitespace)
+    rw [h, List.nil_append] at h1
+    have hall : ∀ c ∈ l.dropWhile isPyWhitespace, isPyWhitespace c = true := by
+      intro c hc
+      rw [← h1] at hc
+      exact takeWhile_all _ _ c (List.mem_reverse.mp hc)
+    have hnil : l.dropWhile isPyWhitespace = [] := by
+      cases hd : l.dropWhile isPyWhitespace with
+      | nil => rfl
+      | cons x xs =>
+        have := head?_dropWhile_false isPyWhitespace l x (by rw [hd]; rfl)
+        have := hall x (by rw [hd]; exact List.mem_cons_self)
+        simp_all
+    exact all_of_dropWhile_eq_nil _ _ hnil
+  · intro h
+    unfold stripBy
+    rw [dropWhile_eq_nil_of_all _ _ h]; rfl
+
+theorem foldl_min_le : ∀ (xs : List Nat) (x : Nat), xs.foldl min x ≤ x ∧ ∀ y ∈ xs, xs.foldl min x ≤ y
+  | [], x => ⟨Nat.le_refl _, by simp⟩
+  | z :: xs, x => by
+    obtain ⟨h1, h2⟩ := foldl_min_le xs (min x z)
+    refine ⟨Nat.le_trans h1 (Nat.min_le_left _ _), ?_⟩
+    intro y hy
+    rcases List.mem_cons.mp hy with rfl | hy
+    · exact Nat.le_trans h1 (Nat.min_le_right _ _)
+    · exact h2 y hy
+
+theorem minIndent_le (L : List Text) (l : Text) (hl : l ∈ L) (hb : isBlankLine l = false) :
+    minIndent L ≤ leadingSpaces l := by
+  unfold minIndent
+  have hm : leadingSpaces l ∈ (L.filter fun ln => !isBlankLine ln).map leadingSpaces :=
+    List.mem_map.mpr ⟨l, List.mem_filter.mpr ⟨hl, by simp [hb]⟩, rfl⟩
+  cases hf : (L.filter fun ln => !isBlankLine ln).map leadingSpaces with
+  | nil => rw [hf] at hm; simp at hm
+  | cons x xs =>
+    rw [hf] at hm
+    obtain ⟨h1, h2⟩ := foldl_min_le xs x
+    rcases List.mem_cons.mp hm with h | h
+    · rw [h]; exact h1
+    · exact h2 _ h
+
+theorem minIndent_map_congr (f : Text → Text) : ∀ (L : List Text),
+    (∀ l ∈ L, (isBlankLine l = false → f l = l) ∧ (isBlankLine l = true → isBlankLine (f l) = true)) →
+    minIndent (L.map f) = minIndent L := by
+  intro L h
+  have : (L.map f).filter (fun ln => !isBlankLine ln) = L.filter (fun ln => !isBlankLine ln) := by
+    induction L with
+    | nil => rfl
+    | cons x xs ih =>
+      have hx := h x List.mem_cons_self
+      have ih := ih (fun l hl => h l (List.mem_cons_of_mem _ hl))
+      rw [List.map_cons]
+      cases hb : isBlankLine x with
+      | false => rw [hx.1 hb, List.filter_cons_of_pos (by simp [hb]), List.filter_cons_of_pos (by simp [hb]), ih]
+      | true =>
+        rw [List.filter_cons_of_neg (by simp [hx.2 hb]), List.filter_cons_of_neg (by simp [hb]), ih]
+  unfold minIndent
+  rw [this]
+
+theorem eq_spaces_append_drop : ∀ (k : Nat) (l : Text), k ≤ leadingSpaces l → l = spaces k ++ l.drop k
+  | 0, l, _ => by simp
+  | k + 1, [], h => by simp [leadingSpaces] at h
+  | k + 1, c :: cs, h => by
+    unfold leadingSpaces at h
+    by_cases hc : c = ' '
+    · subst hc
+      rw [List.takeWhile_cons_of_pos (by decide), List.length_cons] at h
+      have := eq_spaces_append_drop k cs (by unfold leadingSpaces; omega)
+      rw [spaces_succ, List.drop_succ_cons, List.cons_append, ← this]
+    · rw [List.takeWhile_cons_of_neg (by simp [hc])] at h; simp at h
+
+theorem dropPrefixIf_suffix (p l : Text) : dropPrefixIf p l <:+ l := by
+  unfold dropPrefixIf; split
+  · exact List.drop_suffix _ _
+  · exact List.suffix_refl _
+
+theorem getLast?_of_suffix {a b : Text} (h : a <:+ b) {c : Char} (hc : a.getLast? = some c) :
+    b.getLast? = some c := by
+  obtain ⟨t, rfl⟩ := h
+  have : a ≠ [] := by intro e; rw [e] at hc; simp at hc
+  rw [getLast?_append_ne_nil _ _ this]; exact hc
+
+theorem isBlankLine_spaces (k : Nat) : isBlankLine (spaces k) = true := by
+  rw [isBlankLine_iff]; intro c hc; rw [mem_spaces hc]; decide
+
+/-- re-indenting after removing the common indentation gives back every non-blank line -/
+theorem reindent_line (m : Nat) (L : List Text) (hm : minIndent L = m) (l : Text) (hl : l ∈ L) :
+    (isBlankLine l = false → padLine m (dropPrefixIf (spaces m) l) = l) ∧
+    (isBlankLine l = true → isBlankLine (padLine m (dropPrefixIf (spaces m) l)) = true) := by
+  constructor
+  · intro hb
+    have hle : m ≤ leadingSpaces l := hm ▸ minIndent_le L l hl hb
+    have e := eq_spaces_append_drop m l hle
+    have hd : dropPrefixIf (spaces m) l = l.drop m := by
+      conv => lhs; rw [e]
+      exact dropPrefixIf_append _ _
+    rw [hd]
+    unfold padLine
+    split
+    · rename_i hemp
+      have : l.drop m = [] := by simpa using hemp
+      rw [this, List.append_nil] at e
+      rw [e, isBlankLine_spaces] at hb; simp at hb
+    · exact e.symm
+  · intro hb
+    rw [isBlankLine_iff] at hb ⊢
+    intro c hc
+    unfold padLine at hc
+    split at hc
+    · simp at hc
+    · rcases List.mem_append.mp hc with hc | hc
+      · rw [mem_spaces hc]; decide
+      · exact hb c ((dropPrefixIf_suffix _ _).subset hc)
+
+theorem mlRestRaw_spec (inner : Text) (h : containsNL inner = true) :
+    ∃ xs l, (splitLines inner).drop 1 = xs ++ [l] ∧ mlRestRaw inner = xs ++ [rstripSpaces l] := by
+  have hlen := splitLines_length inner
+  have hc : 0 < inner.count '\n' := List.count_pos_iff.mpr ((containsNL_iff inner).mp h)
+  have hne : (splitLines inner).drop 1 ≠ [] := by
+    intro e
+    have := congrArg List.length e
+    simp at this; omega
+  rcases List.eq_nil_or_concat ((splitLines inner).drop 1) with e | ⟨xs, l, e⟩
+  · exact absurd e hne
+  · rw [List.concat_eq_append] at e
+    refine ⟨xs, l, e, ?_⟩
+    unfold mlRestRaw
+    rw [e]; simp
+
+theorem fromText_canon (col : Nat) (inner : Text) (h : containsNL inner = true) :
+    CanonML (mlFirst inner) (mlBody (mlNormalized col inner)) (minIndent (mlNormalized col inner)) := by
+  obtain ⟨xs, l, hdrop, hraw⟩ := mlRestRaw_spec inner h
+  have hlines : ∀ x ∈ xs ++ [l], containsNL x = false := by
+    intro x hx
+    rw [← hdrop] at hx
+    exact splitLines_lines_no_nl inner x (List.mem_of_mem_drop hx)
+  -- the body is the raw rest with a suffix-taking map applied
+  obtain ⟨g, hg, hbody⟩ : ∃ g : Text → Text, (∀ x, g x <:+ x) ∧
+      mlBody (mlNormalized col inner) = (xs ++ [rstripSpaces l]).map g := by
+    unfold mlBody mlNormalized
+    rw [hraw]
+    split
+    · refine ⟨fun x => dropPrefixIf _ (dropPrefixIf (spaces col) x), ?_, by rw [List.map_map]; rfl⟩
+      intro x; exact (dropPrefixIf_suffix _ _).trans (dropPrefixIf_suffix _ _)
+    · exact ⟨_, fun x => dropPrefixIf_suffix _ x, rfl⟩
+  refine ⟨?_, ?_, ?_, ?_, ?_, ?_⟩
+  · -- first line has no line break
+    unfold mlFirst
+    rw [stripSpaces_eq_stripBy]
+    apply containsNL_of_sublist (stripBy_sublist _ _)
+    cases hs : splitLines inner with
+    | nil => rfl
+    | cons a as => exact splitLines_lines_no_nl inner a (by rw [hs]; exact List.mem_cons_self)
+  · unfold mlFirst; rw [stripSpaces_eq_stripBy]; exact stripBy_stripped _ _
+  · rw [hbody]; simp
+  · intro x hx
+    rw [hbody] at hx
+    obtain ⟨x', hx', rfl⟩ := List.mem_map.mp hx
+    apply containsNL_of_sublist (hg x').sublist
+    rcases List.mem_append.mp hx' with hx' | hx'
+    · exact hlines x' (List.mem_append_left _ hx')
+    · simp at hx'; rw [hx', rstripSpaces_eq_rstripBy]
+      have : (rstripBy (· == ' ') l).Sublist l := by
+        unfold rstripBy
+        exact (List.reverse_sublist.mpr (List.dropWhile_sublist _)).trans (by simp)
+      exact containsNL_of_sublist this (hlines l (by simp))
+  · intro x hx c hc
+    rw [hbody, List.map_append, List.map_cons, List.map_nil, List.getLast?_append] at hx
+    simp at hx
+    subst hx
+    have := getLast?_of_suffix (hg _) hc
+    rw [rstripSpaces_eq_rstripBy] at this
+    have := getLast?_rstripBy _ _ _ this
+    intro e; rw [e] at this; simp at this
+  · -- indentation invariant
+    generalize hN : mlNormalized col inner = N
+    unfold mlBody
+    split
+    · rw [List.map_map]
+      exact minIndent_map_congr _ N (fun x hx => reindent_line _ N rfl x hx)
+    · have : minIndent N = 0 := by omega
+      rw [this]
+      have : N.map (padLine 0) = N := by
+        conv => rhs; rw [← List.map_id N]
+        apply List.map_congr_left; intro x _; simp [padLine_zero]
+      rw [this]; assumption
+
+
+theorem token_inline_irrelevant (c : Comment) (b : Bool) (i : Nat) :
+    ({ c with inline := b } : Comment).token i = c.token i := by
+  unfold Comment.token Comment.str; rfl
+
+/-- Block comments: the token the renderer writes at column `i` is read back, at column `i`, as the
+    same comment — for every token text starting with `/*`, every column, every indentation. -/
+theorem block_token_fixed (c1 i : Nat) (t : Text) (h : startsWith ['/', '*'] t = true) :
+    Comment.fromText i ((Comment.fromText c1 t).token i) = Comment.fromText c1 t := by
+  rw [fromText_block c1 t h]
+  by_cases hnl : containsNL (blockInner t) = true
+  · simp only [hnl, if_true]
+    have hcanon := fromText_canon c1 (blockInner t) hnl
+    generalize mlFirst (blockInner t) = first at hcanon ⊢
+    generalize minIndent (mlNormalized c1 (blockInner t)) = m at hcanon ⊢
+    generalize mlBody (mlNormalized c1 (blockInner t)) = body at hcanon ⊢
+    rcases List.eq_nil_or_concat body with e | ⟨bs, bl, e⟩
+    · exact absurd e hcanon.body_ne
+    · rw [List.concat_eq_append] at e
+      subst e
+      have := canon_fixed first bs bl m (blockDoc t) false i hcanon
+      exact this
+  · simp only [hnl, Bool.false_eq_true, if_false]
+    have hnl' : containsNL (blockInner t) = false := by simpa using hnl
+    have hx : containsNL (strip (blockInner t)) = false :=
+      containsNL_of_sublist (stripBy_sublist _ _) hnl'
+    have htok : ({ text := strip (blockInner t), kind := .block (blockDoc t) none } : Comment).token i =
+        blockOpening (blockDoc t) ++ [' '] ++ strip (blockInner t) ++ [' ', '*', '/'] := by
+      simp [Comment.token, hx, blockOpening]
+    rw [htok]
+    exact fromText_single_block i (blockDoc t) _ (stripBy_stripped _ _) hx
+
 end Nima
